@@ -26,6 +26,7 @@ import (
 
 	"git.arvados.org/arvados.git/sdk/go/arvadosclient"
 	"pgregory.net/rapid"
+	"verif.local/vcommon/nearmd5"
 	"verif.local/vcommon/ref"
 	"verif.local/vcommon/stats"
 )
@@ -122,6 +123,37 @@ func c12DrawSet(t *rapid.T, n int, mode int, label string, taken map[string]bool
 		}
 		s.Root = fmt.Sprintf("%s://%s:%d", scheme, s.Host, s.Port)
 		out = append(out, s)
+	}
+	return out
+}
+
+// c12MkSvcs turns given UUIDs (round 2: directed near-colliding weights) into
+// services, registering them in taken; UUIDs whose key is already taken are
+// skipped.
+func c12MkSvcs(t *rapid.T, uuids []string, label string, taken map[string]bool) []c12Svc {
+	var out []c12Svc
+	for i, u := range uuids {
+		if taken[c12Key(u)] || taken["uuid:"+u] {
+			continue
+		}
+		taken[c12Key(u)] = true
+		taken["uuid:"+u] = true
+		s := c12Svc{UUID: u, Host: fmt.Sprintf("%s%d.c12.verif", label, i), Port: 25107 + i%3, Type: "disk"}
+		s.SSL = rapid.IntRange(0, 3).Draw(t, fmt.Sprintf("%s%dssl", label, i)) == 0
+		scheme := "http"
+		if s.SSL {
+			scheme = "https"
+		}
+		s.Root = fmt.Sprintf("%s://%s:%d", scheme, s.Host, s.Port)
+		out = append(out, s)
+	}
+	return out
+}
+
+func c12Keys2(svcs []c12Svc) []string {
+	out := make([]string, len(svcs))
+	for i, s := range svcs {
+		out[i] = c12Key(s.UUID)
 	}
 	return out
 }
@@ -319,15 +351,96 @@ func TestVerifC12ClientProbeOrder(t *testing.T) {
 		}
 		mode := rapid.SampledFrom([]int{0, 0, 0, 0, 1, 2, 2}).Draw(t, "uuidMode") // all 27 / all other / mixed
 		taken := map[string]bool{}
-		svcs := c12DrawSet(t, n, mode, "s", taken)
+		data := rapid.SliceOfN(rapid.Byte(), 1, 24).Draw(t, "data")
+		dhash := fmt.Sprintf("%x", md5.Sum(data))
+
+		// Round 2: directed near-collisions. In ~45% of the cases the set contains
+		// 2-3 services whose weights for the read hash (or for the hash of the
+		// data written, or one group for each) share their first 4-8 hex digits
+		// (10-16 for the precomputed pairs) and differ later. Their order is
+		// fully defined by the documented full-string comparison.
+		var hash string
+		var directed []c12Svc // go into the set
+		var heldOut []c12Svc  // near-collider of a member of the set, used as the ADDED service
+		writeGroup := map[string]bool{}
+		var dirLabels []string
+		var groups []nearmd5.Group
+		switch plan := rapid.SampledFrom([]string{"", "", "", "", "", "", "", "", "", "", "", "read", "read", "read", "read", "write", "write", "both", "pinned", "pinned"}).Draw(t, "directed"); plan {
+		case "":
+			hash = c12Hash(t, "hash")
+		case "pinned":
+			g := nearmd5.DrawPinned(t, "dp", mode)
+			hash = g.Hash
+			groups = append(groups, g)
+			dirLabels = append(dirLabels, "directed:precomputed-pair")
+		default:
+			hash = c12Hash(t, "hash")
+			if plan == "read" || plan == "both" {
+				groups = append(groups, nearmd5.DrawGroup(t, "dr", hash, mode))
+			}
+			if plan == "write" || plan == "both" {
+				groups = append(groups, nearmd5.DrawGroup(t, "dw", dhash, mode))
+			}
+			dirLabels = append(dirLabels, "directed:"+plan+"-hash")
+		}
+		for gi, g := range groups {
+			if g.Pinned {
+				if err := (nearmd5.PinnedPair{Hash: g.Hash, Hex: g.Hex, A: g.Keys[0], B: g.Keys[1]}).Verify(); err != nil {
+					t.Fatalf("VERIF-INFRA: %v", err)
+				}
+			} else if len(g.UUIDs) >= 2 && g.Shared < g.Hex {
+				t.Fatalf("VERIF-INFRA: near-collision search returned weights %v that share %d < %d hex digits", g.Weights, g.Shared, g.Hex)
+			}
+			if len(g.UUIDs) < 2 {
+				dirLabels = append(dirLabels, "directed:search-ran-out-of-budget")
+				continue
+			}
+			ms := c12MkSvcs(t, g.UUIDs, fmt.Sprintf("d%d", gi), taken)
+			if len(ms) < 2 {
+				continue
+			}
+			dirLabels = append(dirLabels, fmt.Sprintf("directed:group-of-%d", len(ms)))
+			if g.Hash == dhash {
+				for _, m := range ms {
+					writeGroup[m.UUID] = true
+				}
+			}
+			if g.Hash == hash && heldOut == nil && rapid.IntRange(0, 2).Draw(t, "holdOut") == 0 {
+				heldOut = ms[len(ms)-1:]
+				ms = ms[:len(ms)-1]
+				dirLabels = append(dirLabels, "directed:added-service-near-collides-with-a-member")
+			}
+			directed = append(directed, ms...)
+			if stats.WantSample("directed near-collision") {
+				stats.Sample("directed near-collision", map[string]interface{}{"hash": g.Hash, "uuids": g.UUIDs, "weights": g.Weights, "shared_hex_digits": g.Shared, "candidates_tried": g.Tried})
+			}
+		}
+		if n < len(directed) {
+			n = len(directed)
+		}
+		svcs := append(directed, c12DrawSet(t, n-len(directed), mode, "s", taken)...)
+		if len(directed) > 0 && n > 1 && rapid.Bool().Draw(t, "shuffleSet") {
+			svcs = rapid.Permutation(svcs).Draw(t, "setOrder")
+		}
 		for i := range svcs {
-			svcs[i].ReadOnly = rapid.IntRange(0, 4).Draw(t, fmt.Sprintf("ro%d", i)) == 0
+			svcs[i].ReadOnly = rapid.IntRange(0, 4).Draw(t, fmt.Sprintf("ro%d", i)) == 0 && !writeGroup[svcs[i].UUID]
 			if rapid.IntRange(0, 3).Draw(t, fmt.Sprintf("px%d", i)) == 0 {
 				svcs[i].Type = "proxy"
 			}
 		}
-		hash := c12Hash(t, "hash")
 		labels := []string{fmt.Sprintf("uuids=%s", [...]string{"all-27", "all-other-length", "mixed"}[mode])}
+		labels = append(labels, dirLabels...)
+		// measured on the set itself, whatever produced it
+		labels = append(labels, "read-hash:longest-common-weight-prefix="+nearmd5.PrefixBucket(nearmd5.MaxSharedPrefix(hash, c12Keys2(svcs))))
+		{
+			var wr []c12Svc
+			for _, s := range svcs {
+				if !s.ReadOnly {
+					wr = append(wr, s)
+				}
+			}
+			labels = append(labels, "write-hash:longest-common-weight-prefix="+nearmd5.PrefixBucket(nearmd5.MaxSharedPrefix(dhash, c12Keys2(wr))))
+		}
 		switch {
 		case n == 1:
 			labels = append(labels, "n=1")
@@ -380,9 +493,12 @@ func TestVerifC12ClientProbeOrder(t *testing.T) {
 			labels = append(labels, "remove-one")
 		}
 		{
-			extra := c12DrawSet(t, 1, mode, "x", taken)
-			delete(taken, c12Key(extra[0].UUID))
-			delete(taken, "uuid:"+extra[0].UUID)
+			extra := heldOut
+			if extra == nil {
+				extra = c12DrawSet(t, 1, mode, "x", taken)
+				delete(taken, c12Key(extra[0].UUID))
+				delete(taken, "uuid:"+extra[0].UUID)
+			}
 			more := append(append([]c12Svc(nil), svcs...), extra[0])
 			gotMore := NewRootSorter(c12RootMap(more, false), hash).GetSortedRoots()
 			if exp := c12Without(gotMore, map[string]bool{extra[0].Root: true}); !c12Eq(exp, got) {
@@ -567,8 +683,6 @@ func TestVerifC12ClientProbeOrder(t *testing.T) {
 				writable = append(writable, s)
 			}
 		}
-		data := rapid.SliceOfN(rapid.Byte(), 1, 24).Draw(t, "data")
-		dhash := fmt.Sprintf("%x", md5.Sum(data))
 		wantW := c12RefRoots(dhash, writable)
 		refusal := rapid.SampledFrom([]int{403, 403, 400, 503, 500, 0}).Draw(t, "refusal")
 		wst := &c12Stub{status: func(string) int { return refusal }}
